@@ -553,14 +553,28 @@ def quoted_bytes(data: bytes) -> bytes:
 
 ####################################################################
 #
+# A line that ends in `{<digits>}` (or `{<digits>+}`) announces a literal.
+#
+ENDS_LIKE_LITERAL_RE = re.compile(r"\{\d+\+?\}$")
+
+
+####################################################################
+#
 def oneline(text: Any) -> str:
     """Render `text` for use inside a single-line IMAP response.
 
     Error texts may embed things the client sent us as a literal (a mailbox
     name, part of the command itself) and those may contain CR and LF. A
     status response is a single line so they are replaced by a space.
+
+    They may also end in `{<digits>}` and the text usually ends the line: a
+    client would take that for the announcement of a literal and swallow
+    the octets that follow. A full stop is appended in that case.
     """
-    return str(text).replace("\r", " ").replace("\n", " ")
+    text = str(text).replace("\r", " ").replace("\n", " ")
+    if ENDS_LIKE_LITERAL_RE.search(text):
+        text += "."
+    return text
 
 
 ####################################################################
